@@ -271,6 +271,99 @@ def run_values(ctx):
     ctx.floor(rule, 3)
 
 
+def run_truncate_decode(ctx):
+    """R-C01.V: per circuit, `truncate` (encoded measurement share -> output share) and `decode_result` (aggregate -> result) have the
+    shapes the aggregate's exactness rests on: the whole input (or exactly the prefix / chunks named here), every element."""
+    rule = "R-C01.V"
+    T = "flp::types::"
+    me, inp = Arg(1), Arg(2)
+    drc = lambda x: Call("decode_range_checked_int", x, Field(me, "last_weight_field"))
+    item = Field(Call("next"), name="0", variant="Some")
+
+    def ok_payload(f):
+        g = ctx.guards(f)
+        oks = [rd for rd in g.retdefs if rd.kind in ("ok", "call") and rd.expr is not None]
+        return g, oks
+
+    def chunk_loop(f, g, take=None):
+        """Ok(vec) where vec is pushed once per chunk of `input.chunks(self.bits)` [.take(take)] with decode_range_checked_int(chunk)"""
+        pushes = [(bi, c) for bi, c in calls_named(ctx, f, "push") if g.loop_of(bi) is not None]
+        if len(pushes) != 1 or not Try(drc(item))(pushes[0][1][2][1]):
+            return False
+        class _E:
+            block = pushes[0][0]
+        src = ctx.loop_source(f, _E)
+        ch = Call("chunks", inp, Field(me, "bits"))
+        want = Call("take", ch, Field(me, take)) if take else ch
+        lp = g.loop_of(pushes[0][0])
+        latches = [t for (t, hh) in f.body.back_edges() if hh == lp[0]]
+        from rules.common import early_exits
+        return src is not None and want(src) and adapters_in(src) == (["take"] if take else []) and \
+            all(f.body.dominates(pushes[0][0], t) for t in latches) and not early_exits(g, f.body, lp)
+
+    table = [
+        ("Count", "truncate", lambda f, g, oks: len(oks) == 1 and Agg("Result::Ok", inp)(oks[0].expr), "Ok(input)"),
+        ("Histogram", "truncate", lambda f, g, oks: len(oks) == 1 and Agg("Result::Ok", inp)(oks[0].expr), "Ok(input)"),
+        ("Sum", "truncate", lambda f, g, oks: len(oks) == 1 and Agg("Result::Ok", Agg("vec", Try(drc(inp))))(oks[0].expr), "Ok(vec![decode_range_checked_int(input, last_weight)?])"),
+        ("Average", "truncate", lambda f, g, oks: len(oks) == 1 and Call("truncate", Field(me, "summer"), inp)(oks[0].expr), "self.summer.truncate(input)"),
+        ("MultihotCountVec", "truncate", lambda f, g, oks: len(oks) == 1 and Agg("Result::Ok", Call("to_vec", Call("index", inp, Agg("RangeTo", Field(me, "length")))))(oks[0].expr),
+         "Ok(input[..self.length].to_vec())"),
+        ("SumVec", "truncate", lambda f, g, oks: len(oks) == 1 and chunk_loop(f, g), "one decode_range_checked_int per chunk of input.chunks(self.bits)"),
+        ("l1boundsum::L1BoundSum", "truncate", lambda f, g, oks: len(oks) == 1 and chunk_loop(f, g, "measurement_len"), "... per chunk of input.chunks(self.bits).take(self.measurement_len)"),
+        ("Count", "decode_result", lambda f, g, oks: len(oks) == 1 and Call("decode_result", inp)(oks[0].expr), "decode_result(data)"),
+        ("Sum", "decode_result", lambda f, g, oks: len(oks) == 1 and Call("decode_result", inp)(oks[0].expr), "decode_result(data)"),
+        ("Histogram", "decode_result", lambda f, g, oks: len(oks) == 1 and Call("decode_result_vec", inp, Field(me, "length"))(oks[0].expr), "decode_result_vec(data, self.length)"),
+        ("MultihotCountVec", "decode_result", lambda f, g, oks: len(oks) == 1 and Call("decode_result_vec", inp, Field(me, "length"))(oks[0].expr), "decode_result_vec(data, self.length)"),
+        ("SumVec", "decode_result", lambda f, g, oks: len(oks) == 1 and Call("decode_result_vec", inp, Field(me, "len"))(oks[0].expr), "decode_result_vec(data, self.len)"),
+        ("l1boundsum::L1BoundSum", "decode_result", lambda f, g, oks: len(oks) == 1 and Call("decode_result_vec", inp, Field(me, "measurement_len"))(oks[0].expr),
+         "decode_result_vec(data, self.measurement_len)"),
+    ]
+    for ty, meth, pred, want in table:
+        try:
+            f = ctx.fn(rule, name=meth, trait="Type", self_adt=T + ty)
+        except Skip:
+            continue
+        g, oks = ok_payload(f)
+        key = "%s:%s::%s" % (rule, ty, meth)
+        try:
+            good = bool(pred(f, g, oks))
+        except Exception:
+            good = False
+        if good:
+            ctx.ok(rule, key, "%s::%s = %s" % (ty, meth, want), loc=f.loc)
+        else:
+            ctx.bad(rule, key, "%s::%s is not `%s`: %s" % (ty, meth, want, [fmt(rd.expr)[:120] for rd in oks]), loc=f.loc)
+    # the two free helpers
+    try:
+        f = ctx.fn(rule, name="decode_result", id_re=r"^flp::types::decode_result$")
+        g = ctx.guards(f)
+        ctx.require_guard(rule, f, "Ne", Len(Arg(1)), Lit(1), desc="decode_result: len(data) != 1 -> Err")
+        oks = [rd for rd in g.retdefs if rd.kind == "ok"]
+        key = "%s:decode_result:value" % rule
+        if len(oks) == 1 and Agg("Result::Ok", ThroughCasts(Index(Arg(1), Lit(0))))(oks[0].expr):
+            ctx.ok(rule, key, "Ok(F::Integer::from(data[0]))", loc=f.loc)
+        else:
+            ctx.bad(rule, key, "decode_result does not return data[0] converted: %s" % [fmt(rd.expr)[:100] for rd in oks], loc=f.loc)
+        f = ctx.fn(rule, name="decode_result_vec", id_re=r"^flp::types::decode_result_vec$")
+        g = ctx.guards(f)
+        ctx.require_guard(rule, f, "Ne", Len(Arg(1)), Arg(2), desc="decode_result_vec: len(data) != expected_len -> Err")
+        key = "%s:decode_result_vec:every-element" % rule
+        pushes = [(bi, c) for bi, c in calls_named(ctx, f, "push") if g.loop_of(bi) is not None]
+        good = False
+        if len(pushes) == 1 and ThroughCasts(Field(Call("next"), name="0", variant="Some"))(pushes[0][1][2][1]):
+            class _E:
+                block = pushes[0][0]
+            src = ctx.loop_source(f, _E)
+            good = src is not None and Mentions(Arg(1))(src) and not adapters_in(src)
+        if good:
+            ctx.ok(rule, key, "every element of data is converted and collected, in order", loc=f.loc)
+        else:
+            ctx.bad(rule, key, "decode_result_vec does not convert every element of data", loc=f.loc)
+    except Skip:
+        pass
+    ctx.floor(rule, 15)
+
+
 def _run_jr_sites(ctx, rule, f, g, b, inits):
         n_sites = 0
         for k, (ibi, ic) in enumerate(inits):
@@ -335,6 +428,7 @@ def _run_jr_sites(ctx, rule, f, g, b, inits):
 
 def run(ctx):
     run_values(ctx)
+    run_truncate_decode(ctx)
     run_bitlength(ctx)
     # a cloned instance is the same instance (VDAF objects are cloned by callers and by the parallel gadget)
     clone_faithful(ctx, "R-C01.CL")
